@@ -338,5 +338,9 @@ theorem exec_skeletons : Skeletons.ExecShape := Skeletons.exec_shape
 theorem compare_skeletons : Skeletons.CompareShape := Skeletons.compare_shape
 theorem codegenBefore_skeletons : Skeletons.CodegenBeforeShape := Skeletons.codegenBefore_shape
 theorem codegenAfter_skeletons : Skeletons.CodegenAfterShape := Skeletons.codegenAfter_shape
+theorem f_checker_checker_skeletons : Skeletons.F_checker_checkerShape := Skeletons.f_checker_checker_shape
+theorem f_codegen_codegen_skeletons : Skeletons.F_codegen_codegenShape := Skeletons.f_codegen_codegen_shape
+theorem f_vm_vm_skeletons : Skeletons.F_vm_vmShape := Skeletons.f_vm_vm_shape
+theorem f_types_types_skeletons : Skeletons.F_types_typesShape := Skeletons.f_types_types_shape
 
 end MtailVerif.C01
